@@ -50,6 +50,11 @@ func c20Presized(p *core.Prog, r *core.Run, pub *ssa.Function, hdr *ssa.BasicBlo
 			for _, r2 := range *u.Referrers() {
 				fa, ok := r2.(*ssa.FieldAddr)
 				if !ok {
+					// results[i] = result: the whole element, at the loop's position
+					if st, isSt := r2.(*ssa.Store); isSt && st.Addr == ssa.Value(u) && own {
+						coded[st.Block()] = true
+						continue
+					}
 					if !isRead(r2) {
 						only = false
 					}
@@ -237,10 +242,57 @@ func c20Rules(p *core.Prog, r *core.Run) {
 			if a.Op == "field" && a.Args[0].Op == "field" && a.Args[0].Name == "Data" {
 				nData++
 				r.Check("C20.ONLY", "data-field:"+a.Name, a.Name == "Value", p.InstrPos(st), "field %s of the fetched record data is rewritten", a.Name)
+				// ... in a copy of the snapshot entry: the snapshot itself changes only
+				// once the write went through (FRESHSNAP); an entry reached through a
+				// pointer kept in the map would change right here
+				shared := false
+				if fa, isFA := st.Addr.(*ssa.FieldAddr); isFA {
+					base := fa.X
+					for {
+						if f2, ok := base.(*ssa.FieldAddr); ok {
+							base = f2.X
+							continue
+						}
+						break
+					}
+					if _, isLocal := base.(*ssa.Alloc); !isLocal {
+						shared = true
+					}
+				}
+				r.Check("C20.ONLY", "data-field:on-a-copy", !shared, p.InstrPos(st), "the new value is written into a local copy of the snapshot entry, not into the entry itself: %s", short(a))
 			}
 		}
 	}
 	r.Check("C20.ONLY", "data-fields", nData == 1, p.Pos(pub.Pos()), "exactly one field of the record data is written (found %d)", nData)
+
+	// the zone-id cache outlives the call: it is written only with an id the
+	// API has just confirmed (in the lookup's own code, behind its success
+	// tests) - an id remembered from a failed or empty lookup would make every
+	// later publish report "not found"
+	nZ := 0
+	for _, fn := range all {
+		for _, b := range fn.Blocks {
+			for _, in := range b.Instrs {
+				mu, ok := in.(*ssa.MapUpdate)
+				if !ok {
+					continue
+				}
+				mx := p.X(mu.Map)
+				if !(mx.Op == "field" && mx.Name == "zoneIDs") {
+					continue
+				}
+				nZ++
+				inLookup := fn == gzd
+				confirmed := false
+				for _, f := range p.Facts(b) {
+					if f.Op == "true" && f.L.Op == "field" && f.L.Name == "Success" {
+						confirmed = true
+					}
+				}
+				r.Check("C20.WHO", fmt.Sprintf("zone-id-cache:store#%d", nZ), inLookup && confirmed, p.InstrPos(mu), "the zone-id cache is written by the lookup itself (%v) after the API reported success (%v)", inLookup, confirmed)
+			}
+		}
+	}
 
 	// --- PARAM
 	c20Params(p, r, pub)
@@ -259,6 +311,12 @@ func c20Rules(p *core.Prog, r *core.Run) {
 				continue
 			}
 			nSnap++
+			// the snapshot belongs to this call: made here, not kept in the
+			// publisher (a listing remembered across calls goes stale: records
+			// edited in between are reported unchanged or overwritten)
+			mx := p.X(mu.Map)
+			perCall := !mx.Any(func(e *core.Expr) bool { return e.Op == "param" || e.Op == "global" })
+			r.Check("C20.FRESHSNAP", "snapshot:per-call", perCall, p.InstrPos(mu), "the snapshot map is created by this call of PublishECH: %s", short(mx))
 			succeeded := false
 			for _, f := range p.Facts(b) {
 				if f.Op == "==" && f.R.Name == "nil" && f.L.Op == "call" && f.L.Fn == upd {
